@@ -274,6 +274,23 @@ func wideVariant(root M) M {
 	return M(r)
 }
 
+// degenerateVariant: c3 has one and the same value for every known alternative (a zero-width observed range), c1 is 0
+// for every known alternative when zero is set.
+func degenerateVariant(root M, zero bool) M {
+	r := asM(deepCopy(root))
+	for _, a := range asL(r["knownAlternatives"]) {
+		cm := asM(asM(a)["criteria"])
+		cm["c3"] = 2.0
+		if zero {
+			cm["c1"] = 0.0
+		}
+	}
+	for _, c := range asL(r["criteria"]) {
+		delete(asM(c), "valuesRange")
+	}
+	return M(r)
+}
+
 func negativeVariant(root M) M {
 	r := asM(deepCopy(root))
 	for _, a := range asL(r["knownAlternatives"]) {
